@@ -7,7 +7,7 @@ sys.path.insert(0, ROOT)
 if os.environ.get("VERIF_REPO"): sys.path.insert(0, os.environ["VERIF_REPO"])
 from multiprocessing import Pool
 
-MAXLEN, NPOOL = 4, 7
+MAXLEN, NPOOL = 4, 8
 
 
 def work(args):
